@@ -1,5 +1,6 @@
 """C11 — factorisations reconstruct the input and have the promised structure."""
 import math
+from fractions import Fraction
 
 from .common import Failure, f2h, h2f, parse_reply, vec
 from . import c01 as H
@@ -110,6 +111,104 @@ def spd_int(rng, n):
     return [float(sum(G[k][i] * G[k][j] for k in range(n)) + (1 if i == j else 0)) for i in range(n) for j in range(n)]
 
 
+# ---------------------------------------------------------------- generic strata (tools/GENERIC_STRATA.md)
+def int_scale(A):
+    """A = Aint * 2^k exactly with integer Aint -> (Aint, k), else None"""
+    nz = [v for v in A if v != 0]
+    if not nz or not finite(A):
+        return None
+    parts = []
+    for v in A:
+        if v == 0:
+            parts.append((0, 0))
+            continue
+        m, e = dy(v)
+        while m % 2 == 0:
+            m //= 2
+            e += 1
+        parts.append((m, e))
+    k = min(e for m, e in parts if m != 0)
+    ints = [m << (e - k) if m else 0 for m, e in parts]
+    if max(abs(v) for v in ints) >= 2 ** 200:
+        return None
+    return ints, k
+
+
+def g_rank1(rng, n):
+    u = [rng.randint(-4, 4) for _ in range(n)]
+    v = [rng.randint(-4, 4) for _ in range(n)]
+    if rng.chance(0.3):
+        u[0] = 0
+    return [float(u[i] * v[j]) for i in range(n) for j in range(n)]
+
+
+def packed_lu(rng, n):
+    Lu = g_lower(rng, n, unit=True)
+    Uu = g_upper(rng, n)
+    return [Lu[i] if (i // n) > (i % n) else Uu[i] for i in range(n * n)]
+
+
+def strata(rng, tier, lines, cover):
+    def cnt(k):
+        cover[k] = cover.get(k, 0) + 1
+
+    iv = lambda p: "%d %s" % (len(p), " ".join(map(str, p))) if p else "0"
+    for rep in range(1 if tier == "quick" else 4):
+        for n in H.BOUNDARY_N:
+            cnt("strata:order=%d" % n)
+            b = [rng.normal() for _ in range(n)]
+            # factorisations at the unrolled-dot boundaries; rank-1 / rank-deficient / zero integer matrices
+            for A in (H.g_dense(rng, n), g_rank1(rng, n), g_rankdef(rng, n), [0.0] * (n * n), H.g_special(rng, n)):
+                lines.append("both_lu " + vec(A))
+            lines.append("mdet %d %d %s" % (n, n, vec(g_rank1(rng, n))))
+            for S in (H.g_spd(rng, n), H.g_band_spd(rng, n), spd_int(rng, n)):
+                lines.append("both_chol " + vec(S))
+            L, U = g_lower(rng, n), g_upper(rng, n)
+            Lp = [abs(v) if i // n == i % n else v for i, v in enumerate(L)]
+            lines.append("both_tri fwd %s %s" % (vec(L), vec(b)))
+            lines.append("both_tri bwd %s %s" % (vec(U), vec(b)))
+            lines.append("both_tri chol_solve %s %s" % (vec(Lp), vec(b)))
+            # solves with an explicit factor: Vector and Matrix right-hand sides with nsys != n, nsys > n, nsys = 1
+            opts = [1, 2, 3, n + 1, 8, 9] + ([n - 1] if n > 2 else []) + ([2 * n] if n <= 9 else [])
+            ncol = rng.choice([c for c in opts if c != n])
+            S = [rng.normal() for _ in range(n * ncol)]
+            f, piv = packed_lu(rng, n), rng.shuffle(list(range(n)))
+            lines.append("mlu_solve_m %d %d %s %s %d %d %s" % (n, n, vec(f), iv(piv), n, ncol, vec(S)))
+            lines.append("mlu_solve_v %d %d %s %s %s" % (n, n, vec(f), iv(piv), vec(b)))
+            lines.append("lu_solve %s %s %s" % (vec(f), iv(piv), vec(b)))
+            lines.append("mchol_solve_m %d %d %s %d %d %s" % (n, n, vec(Lp), n, ncol, vec(S)))
+            lines.append("mchol_solve_v %d %d %s %s" % (n, n, vec(Lp), vec(b)))
+            lines.append("chol_solve %s %s" % (vec(Lp), vec(b)))
+        # determinant of non-singular matrices at tiny / huge exact power-of-two scale, and graded diagonals
+        for k in (-53, -60, -100, -200, -400, 60, 200):
+            n = rng.randint(2, 8)
+            A = H.g_int(rng, n)
+            cnt("strata:det-scale")
+            lines.append("mdet %d %d %s" % (n, n, vec([math.ldexp(v, k) for v in A])))
+            lines.append("both_lu " + vec([math.ldexp(v, k) for v in A]))
+        for n in (2, 3, 5):
+            D = [0.0] * (n * n)
+            for i in range(n):
+                D[i * n + i] = math.ldexp(float(rng.randint(1, 5)), -60 * i)
+            if n > 2:
+                D[1] = 1.0
+            lines.append("mdet %d %d %s" % (n, n, vec(D)))
+        # threshold bands: the epsilon of the symmetry assert, the `<= 0` tests, `-0` / NaN in the triangular asserts
+        for n, A in H.eps_band_matrices(rng):
+            cnt("strata:threshold")
+            lines.append("both_chol " + vec(A))
+            lines.append("mis_pd %d %d %s" % (n, n, vec(A)))
+        for n in (2, 5):
+            b = [rng.normal() for _ in range(n)]
+            L = g_lower(rng, n)
+            L[n - 1] = -0.0                                   # (0, n-1): -0 above the diagonal is still triangular
+            lines.append("both_tri fwd %s %s" % (vec(L), vec(b)))
+            lines.append("mis_lower %d %d %s" % (n, n, vec(L)))
+            L[n - 1] = float("nan")                           # NaN != 0: not triangular for the Matrix form
+            lines.append("mfwd %d %d %s %s" % (n, n, vec(L), vec(b)))
+            lines.append("mis_lower %d %d %s" % (n, n, vec(L)))
+
+
 def corpus():
     one, two, z = f2h(1.0), f2h(2.0), f2h(0.0)
     a = "4 %s %s %s %s" % (one, two, two, one)                    # F02: indefinite, positive diagonal
@@ -208,6 +307,7 @@ def gen(rng, tier):
         k = rng.choice(H.SCALE_EXPS)
         cnt("scale:%d" % k)
         lines.append("lu_pair %s %s" % (vec(base), vec([math.ldexp(v, k) for v in base])))
+    strata(rng, tier, lines, cover)
     for a in ([4.0, 2.0, 2.0, 1.0], [1.0, 1.0, 1.0, 1.0], [0.0]):   # C11e witnesses: exactly zero last pivot
         lines.append("both_chol " + vec(a))
     z = f2h(0.0)
@@ -489,7 +589,22 @@ def oracle(lines, impl):
                 fails.append(Failure(i, key, "det panicked on a square matrix of order %d" % n))
                 continue
             d = h2f(toks[0])
-            if n and all(v == int(v) and abs(v) < 1e6 for v in A):
+            isc = int_scale(A) if n and n <= 16 else None
+            if isc is not None and not (all(v == int(v) and abs(v) < 1e6 for v in A)):
+                # A = Aint * 2^k: the exact determinant is det(Aint) * 2^(k n)
+                Ai, k = isc
+                exq = Fraction(bareiss_det(Ai, n)) * Fraction(2) ** (k * n)
+                Af = [float(v) for v in Ai] if max(abs(v) for v in Ai) < 2 ** 900 else None
+                if Af is not None and exq != 0 and Fraction(1, 10 ** 290) < abs(exq) < Fraction(10 ** 290):
+                    cond = H.cond_inf(Af, n)
+                    if cond < 1e12:
+                        rel = abs(Fraction(d) - exq) / abs(exq) if math.isfinite(d) else float("inf")
+                        ratio = float(rel) / (n * n * EPS * max(cond, 1.0))
+                        _stat("det-scaled", ratio)
+                        if ratio > C_DET:
+                            fails.append(Failure(i, key, "det = %r, exact determinant %.17g (relative error %.3g = %.3g * n^2*eps*cond, order %d)"
+                                                 % (d, float(exq), float(rel), ratio, n), repr(float(exq))))
+            elif n and all(v == int(v) and abs(v) < 1e6 for v in A):
                 ex = bareiss_det([int(v) for v in A], n)
                 had = 1.0
                 for rr in range(n):
@@ -563,6 +678,64 @@ def oracle(lines, impl):
             n = isqrt_exact(len(f))
             if n and is_perm(piv) and len(piv) == n and (bl[0] is None or bl[0] != bl[1]):
                 fails.append(Failure(i, "lu_solve:n=%d" % n, "slice lu_solve and Matrix::lu_solve differ or panicked (order %d)" % n))
+        elif op in ("mlu_solve_m", "mlu_solve_v", "lu_solve", "mchol_solve_m", "mchol_solve_v", "chol_solve"):
+            pos = 1
+            if op.startswith("m"):
+                r, c = int(t[1]), int(t[2])
+                pos = 3
+            f, pos = rvec(t, pos)
+            n = isqrt_exact(len(f))
+            if op.startswith("m") and (r != c or r * c != len(f)):
+                continue
+            if not n or not finite(f):
+                continue
+            lu_kind = "lu" in op
+            piv = None
+            if lu_kind:
+                piv, pos = rints(t, pos)
+                if not is_perm(piv) or len(piv) != n:
+                    continue
+            if op.endswith("_m"):
+                br, bc = int(t[pos]), int(t[pos + 1])
+                S, pos = rvec(t, pos + 2)
+                if br != n or br * bc != len(S) or bc == 0:
+                    continue
+                ncol = bc
+                X = [h2f(v) for v in toks[3:]] if st == "ok" else None
+            else:
+                S, pos = rvec(t, pos)
+                if len(S) != n:
+                    continue
+                ncol = 1
+                X = [h2f(v) for v in toks[1:]] if st == "ok" else None
+            if lu_kind:
+                Lm = [f[a * n + b] if b < a else (1.0 if a == b else 0.0) for a in range(n) for b in range(n)]
+                Um = [f[a * n + b] if b >= a else 0.0 for a in range(n) for b in range(n)]
+                ok_in = all(f[a * n + a] != 0 for a in range(n))
+            else:
+                if any(f[a * n + b] != 0 for a in range(n) for b in range(a + 1, n)):
+                    continue
+                Lm = f
+                Um = [f[b * n + a] for a in range(n) for b in range(n)]
+                ok_in = all(f[a * n + a] != 0 for a in range(n))
+            if not ok_in or not finite(S):
+                continue
+            key = "%s:n=%d" % (op, n)
+            if X is None or len(X) != n * ncol or not finite(X):
+                fails.append(Failure(i, key, "%s panicked or returned non-finite values on a factor with non-zero diagonal (order %d)" % (op, n)))
+                continue
+            # A' = fl(L*U) (entry error <= eps |L||U|, far inside the tolerance), right-hand side P*S
+            Ap = [math.fsum(Lm[a * n + k2] * Um[k2 * n + b] for k2 in range(n)) for a in range(n) for b in range(n)]
+            absLU = max(sum(sum(abs(Lm[a * n + k2]) * abs(Um[k2 * n + b]) for k2 in range(n)) for b in range(n)) for a in range(n))
+            PS = [S[(piv[a] if piv else a) * ncol + c2] for a in range(n) for c2 in range(ncol)]
+            res = exact_residual(Ap, n, X, PS, ncol)
+            for c2 in range(ncol):
+                scale = absLU * max(abs(v) for v in col(X, n, ncol, c2)) + max(abs(v) for v in col(PS, n, ncol, c2))
+                ratio = 0.0 if res[c2] == 0 else (res[c2] / (n * EPS * scale) if scale > 0 else float("inf"))
+                _stat("factored:" + op, ratio)
+                if ratio > C_TRI:
+                    fails.append(Failure(i, key, "%s: column %d has |L U x - P b| = %.3g = %.3g * n*eps*(||L||U|| |x| + |b|) (order %d)" % (op, c2, res[c2], ratio, n)))
+                    break
         elif op in ("mis_upper", "mis_lower"):
             r, c = int(t[1]), int(t[2])
             A, _ = rvec(t, 3)
